@@ -79,10 +79,14 @@ func (r *runner) callback(it *qitem) {
 	r.clk.pass(seamCb)
 }
 
-// c06CloseRunner is its own named function so that the goroutine is recognisable in a stack dump.
-func c06CloseRunner(r *runner) {
-	_ = r.p.Close()
-	r.closeDone.Store(true)
+// spawnClose runs Close in its own goroutine. It is the only go statement of this method, so the
+// goroutine is recognisable in a stack dump from its first instant ("created by ...spawnClose",
+// or the compiler's wrapper "...spawnClose.gowrap1" / ".func1" before it has run).
+func (r *runner) spawnClose() {
+	go func() {
+		_ = r.p.Close()
+		r.closeDone.Store(true)
+	}()
 }
 
 func (r *runner) call(st *Step) error {
@@ -96,7 +100,7 @@ func (r *runner) call(st *Step) error {
 			return errors.New("close twice in one script")
 		}
 		r.closeCalled = true
-		go c06CloseRunner(r)
+		r.spawnClose()
 	default:
 		return fmt.Errorf("bad call %q", st.O)
 	}
@@ -162,7 +166,7 @@ func (r *runner) Finish() bool {
 	r.clk.SetGates(false, false, false)
 	if !r.closeCalled {
 		r.closeCalled = true
-		go c06CloseRunner(r)
+		r.spawnClose()
 	}
 	dl := time.Now().Add(10 * time.Second)
 	for !r.closeDone.Load() {
@@ -205,7 +209,7 @@ func scanStacks() (busy, loopAlive bool) {
 		stackBuf = make([]byte, 2*len(stackBuf))
 	}
 	for _, blk := range bytes.Split(stackBuf[:n], []byte("\n\n")) {
-		if !bytes.Contains(blk, []byte("events/queue.(*Processor")) && !bytes.Contains(blk, []byte("main.c06CloseRunner")) {
+		if !bytes.Contains(blk, []byte("events/queue.(*Processor")) && !bytes.Contains(blk, []byte("(*runner).spawnClose")) {
 			continue
 		}
 		m := goHeader.FindSubmatch(blk)
